@@ -47,6 +47,30 @@ class MicroGraph:
         self._succ_cache[key] = out
         return out
 
+    def routine(self, b):
+        """(control words, edges) of the routine of first opcode byte b, from its dispatch to the next fetch"""
+        starts = set()
+        for d in self.done:
+            for i in range(256):
+                for pins, a2, i2 in self.succ(d, i, loaded=b):
+                    starts.add((a2, i2))
+        seen, edges, bad = self.explore(starts, stop_at_done=True)
+        return {a for a, _ in seen}, edges
+
+    def data_driven_words(self, loop_first_bytes):
+        """control words on which the micro control flow depends through data: the words of the routines of the given
+        (MUL/DIV) opcodes, and every word with a successor edge controlled by an ALU condition output"""
+        words = set()
+        for b in sorted(loop_first_bytes):
+            ws, edges = self.routine(b)
+            words |= {a for a in ws if a in self.prog and a not in self.done}
+        for a in self.prog:
+            for i in (0, 0xFF):
+                for pins, a2 in self.mt.succ(a, i):
+                    if set(pins) & {"CO", "ZO", "NO"}:
+                        words.add(a)
+        return words
+
     def is_load(self, a):
         return self.irkind[a][0] == "load"
 
